@@ -211,3 +211,17 @@ func VerifBitmap(sets []uint8, queries []uint8) []bool {
 	}
 	return out
 }
+
+// VerifExpireStartupDelay makes the startup-delay (hold-down) timer of the peer
+// with the given remote address fire now, so that the end of a hold-down period
+// can be observed without waiting out the 60 to 300 seconds.
+func VerifExpireStartupDelay(s *Server, ip netip.Addr) bool {
+	s.mu.Lock()
+	defer s.mu.Unlock()
+	p, ok := s.peers[ip.String()]
+	if !ok {
+		return false
+	}
+	p.startupDelayTimer.Reset(0)
+	return true
+}
